@@ -1,22 +1,24 @@
-(* C13, second generation - proofs: outside the call patterns of the known
-   findings K5 and K10, every log the model of loop.py produces (callbacks
+(* C13, second generation - proofs: outside the call pattern of the known
+   finding K5, every log the model of loop.py produces (callbacks
    that act included) passes the checker of R13Model.v. *)
 From Coq Require Import ZArith List Bool Arith Lia ZifyBool.
 From Desper Require Import Lib.Alist Loop.RBus Loop.RModel Loop.RFacts Loop.R13Model.
 Import ListNotations.
 Open Scope Z_scope.
 
-Definition nok13 (l : list entry) : bool :=
-  forallb (fun e => negb (k5_entry e || k10_entry e)) l.
+Definition nok13 (l : list entry) : bool := forallb (fun e => negb (k5_entry e)) l.
 
 Lemma nok13_app l1 l2 : nok13 (l1 ++ l2) = true -> nok13 l1 = true /\ nok13 l2 = true.
 Proof. unfold nok13. rewrite forallb_app. intros H. apply andb_prop in H. exact H. Qed.
 
 Lemma nok13_10 l : nok13 l = true -> nok10 l = true.
+Proof. reflexivity. Qed.
+
+Lemma nok13_k5 o h cc cn ex w ch l :
+  nok13 l = true -> In (EAct o (ASwitch h cc cn ex) w ch) l -> cn || (cc && (h =? ch)) = false.
 Proof.
-  unfold nok13, nok10. induction l as [|e l IH]; cbn; auto. intros H.
-  apply andb_prop in H as [H1 H2]. rewrite (IH H2), andb_true_r.
-  destruct (k10_entry e); auto. now rewrite orb_true_r in H1.
+  unfold nok13. rewrite forallb_forall. intros H Hin. specialize (H _ Hin).
+  cbn [k5_entry] in H. destruct (cn || (cc && (h =? ch))); [discriminate|reflexivity].
 Qed.
 
 (* ---- the protocol of the checker computes what the model computes -------- *)
@@ -75,7 +77,6 @@ Proof. intros Hm s s' l r H _ _ _. rewrite (Hm _ _ _ _ H). exact I. Qed.
 Section BusAgree.
   Variable react areact : ekind -> action -> M.
   Hypothesis Hgood : forall k a, good (react k a).
-  Hypothesis Hcalm : forall k a, calm (react k a).
   Hypothesis Hag : forall k a, agree (react k a) (areact k a).
   Hypothesis Htag : forall k a, tagging (react k a).
 
@@ -237,8 +238,7 @@ Section BusAgree.
   Proof.
     intros s s' l r H I C N. unfold perform in H.
     apply andthen_inv in H as (s1&l1&r1&E1&H2). injection E1 as <- <- <-.
-    destruct H2 as (l2&H2&->). cbn [app] in N. unfold nok10 in N. cbn [forallb] in N.
-    apply andb_prop in N as [_ N]. fold (nok10 l2) in N.
+    destruct H2 as (l2&H2&->). cbn [app] in N.
     change ([EAct o a (s_curw s) (s_curh s)] ++ l2)
       with ([EAct o a (s_curw s) (s_curh s)] ++ l2).
     destruct a as [| |q|h cc cn ex|h cc cn|]; cbn [perform_body] in H2;
@@ -256,12 +256,12 @@ Section BusAgree.
       assert (Cu1 : cur_ok s1).
       { destruct C as [q C]. exists q. rewrite Fw. apply Mw. exact C. }
       apply andthen_inv in H2 as (s1'&l1'&r1&E1&H3). injection E1 as <- <- <-.
-      destruct H3 as (l3&H3&->). apply nok10_app in N as [_ N].
+      destruct H3 as (l3&H3&->).
       apply andthen_inv in H3 as (s2&l2'&r2&D2&H4).
       destruct r2 as [|x].
       + destruct H4 as (l4&H4&->).
         pose proof (good_dispatch react Hgood _ _ _ _ _ _ D2 I1 Cu1) as G2.
-        assert (N2 : nok10 l2' = true) by (apply nok10_app in N; apply N).
+        assert (N2 : nok10 l2' = true) by reflexivity.
         destruct (G2 N2) as (I2&_&_&_&Mc2&_&_).
         destruct (switch_tail react h cc cn _ _ _ _ _ _ I2 (Mc2 _ _ C1) H4) as (q4&_&_&_&->).
         cbn [from_switch]. exists o, ex, (s_curw s). now left.
@@ -296,7 +296,6 @@ Lemma enter_agree n h cc cn tag s s' l r :
   a_enter (a_react_n n) h cc cn tag s = Some (s', l, r).
 Proof.
   intros H I N T K.
-  pose proof (loop_switch_post _ _ _ _ _ _ _ _ H I (nok13_10 _ N)) as (_&_&_&Ns&_).
   unfold loop_switch in H. unfold a_enter.
   set (s2 := clears h cc cn (set_inh true s)) in *.
   assert (I2 : inv s2) by (apply clears_inv; exact I).
@@ -336,8 +335,61 @@ Proof.
   destruct r6 as [|x].
   - destruct H7 as (l7&H7&->). injection H7 as <- <- <-.
     rewrite (andthen_norm _ _ _ _ _ A6). cbn [upd]. reflexivity.
-  - destruct H7 as (->&->&->). rewrite (andthen_exn _ _ _ _ _ _ A6).
-    destruct x as [| |h' cc' cn' t']; [reflexivity|reflexivity|discriminate].
+  - destruct H7 as (->&->&->). rewrite (andthen_exn _ _ _ _ _ _ A6). reflexivity.
+Qed.
+
+(* a tagged SwitchWorld that comes out of SimpleLoop.switch was announced by a
+   callback of the world being entered, whose handle was already current *)
+Lemma enter_tagging n h cc cn s s' l r :
+  loop_switch (react_n n) h cc cn s = Some (s', l, r) -> inv s ->
+  from_switch r l (s_curh s').
+Proof.
+  intros H I. pose proof (loop_switch_post _ _ _ _ _ _ _ _ H I eq_refl) as (_&_&Eh&_).
+  rewrite Eh. unfold loop_switch in H.
+  set (s2 := clears h cc cn (set_inh true s)) in *.
+  assert (I2 : inv s2) by (apply clears_inv; exact I).
+  destruct (handle_call h s2) as [[s3 w] l3] eqn:H3.
+  destruct (handle_call_inv _ _ _ _ _ H3 I2) as (I3&C3&[W3 HW3]&_).
+  rewrite (handle_call_cached h (set_cur w h s3) w C3) in H.
+  apply andthen_inv in H as (s5&l5&r5&E5&H5). injection E5 as <- <- <-.
+  destruct H5 as (l6&H6&->). apply from_switch_app_r.
+  apply andthen_inv in H6 as (s6&l6'&r6&E6&H7).
+  destruct r6 as [|x].
+  - destruct H7 as (l7&H7&->). injection H7 as <- <- <-. exact Logic.I.
+  - destruct H7 as (->&->&->).
+    unfold enable in E6. cbn [set_cur s_worlds] in E6. rewrite HW3 in E6.
+    apply andthen_inv in E6 as (s7&l7&r7&E7&H8). injection E7 as <- <- <-.
+    destruct H8 as (l8&H8&->). cbn [app].
+    set (s7 := set_worlds _ (set_cur w h s3)) in *.
+    assert (I7 : inv s7) by (eapply (inv_update w _ W3 (set_cur w h s3)); [exact HW3|exact I3]).
+    assert (C7 : cur_ok s7).
+    { unfold cur_ok, s7. cbn. rewrite alookup_aset_eq. eauto. }
+    apply (tagging_release (react_n n) (react_n_good n)
+             (fun k a => proj2 (react_n_agree_tag n k a)) w (w_q W3) _ _ _ _ H8 I7 C7 eq_refl).
+Qed.
+
+Lemma handler_agree f n : forall h cc cn tag s s' l r,
+  handler (react_n f) n h cc cn s = Some (s', l, r) -> inv s -> nok13 l = true ->
+  tag_ok (RExn (XSW h cc cn tag)) s ->
+  (tag <> None -> cn || (cc && (h =? s_curh s)) = false) ->
+  a_handler (a_react_n f) n h cc cn tag s = Some (s', l, r).
+Proof.
+  induction n as [|n IH]; intros h cc cn tag s s' l r H I N T K; cbn [handler a_handler] in *;
+    [discriminate|].
+  destruct (loop_switch (react_n f) h cc cn s) as [[[s1 l1] r1]|] eqn:LS; [|discriminate].
+  destruct (loop_switch_post _ _ _ _ _ _ _ _ LS I eq_refl) as (I1&_&_&T1&_).
+  pose proof (enter_tagging _ _ _ _ _ _ _ _ LS I) as Tg.
+  destruct r1 as [|[| |h2 cc2 cn2 t2]].
+  - injection H as <- <- <-. now rewrite (enter_agree _ _ _ _ _ _ _ _ _ LS I N T K).
+  - injection H as <- <- <-. now rewrite (enter_agree _ _ _ _ _ _ _ _ _ LS I N T K).
+  - injection H as <- <- <-. now rewrite (enter_agree _ _ _ _ _ _ _ _ _ LS I N T K).
+  - destruct (handler (react_n f) n h2 cc2 cn2 s1) as [[[s2 l2] r2]|] eqn:Hd; [|discriminate].
+    injection H as <- <- <-. apply nok13_app in N as [N1 N2].
+    rewrite (enter_agree _ _ _ _ _ _ _ _ _ LS I N1 T K).
+    assert (K2 : t2 <> None -> cn2 || (cc2 && (h2 =? s_curh s1)) = false).
+    { intros Ht. destruct t2 as [t|]; [|congruence]. cbn [from_switch] in Tg.
+      destruct Tg as (o&ex&w&Hin). exact (nok13_k5 _ _ _ _ _ _ _ _ N1 Hin). }
+    now rewrite (IH _ _ _ _ _ _ _ _ Hd I1 N2 T1 K2).
 Qed.
 
 (* ---- the checker run along the model's log -------------------------------- *)
@@ -380,13 +432,6 @@ Proof.
     + destruct (do_pokes ps s) as [s2 l2] eqn:P. intros [= <- <-].
       cbn [app run13]. unfold step13 at 1. cbn [bst b_exp b_inframe b_st]. unfold poke13.
       rewrite L. eapply IH; eauto.
-Qed.
-
-Lemma nok13_k5 o h cc cn ex w ch l :
-  nok13 l = true -> In (EAct o (ASwitch h cc cn ex) w ch) l -> cn || (cc && (h =? ch)) = false.
-Proof.
-  unfold nok13. rewrite forallb_forall. intros H Hin. specialize (H _ Hin).
-  cbn [k5_entry] in H. destruct (cn || (cc && (h =? ch))); [discriminate|reflexivity].
 Qed.
 
 Lemma frame13 fuel nps last f s s' l r fr :
@@ -463,7 +508,7 @@ Proof.
         discriminate.
     + apply (Plain XQuit); reflexivity.
     + apply (Plain XOther); reflexivity.
-    + destruct (loop_switch (react_n fuel) h cc cn s2) as [[[s3 l3] r3]|] eqn:LS; [|discriminate].
+    + destruct (handler (react_n fuel) fuel h cc cn s2) as [[[s3 l3] r3]|] eqn:LS; [|discriminate].
       st_inv. intros N. exists false. split; [reflexivity|]. intros rest.
       apply nok13_app in N as [_ N]. apply nok13_app in N as [_ N]. apply nok13_app in N as [N2 N3].
       pose proof (good_perform (react_n fuel) (react_n_good fuel) _ _ _ _ _ _ Pf0 I1 C1
@@ -474,7 +519,7 @@ Proof.
       assert (K : tag <> None -> cn || (cc && (h =? s_curh s2)) = false).
       { intros Ht. destruct tag as [t|]; [|congruence]. cbn [from_switch] in Tg.
         destruct Tg as (o&ex&w&Hin). rewrite Fh2. exact (nok13_k5 _ _ _ _ _ _ _ _ N2 Hin). }
-      pose proof (enter_agree _ _ _ _ _ _ _ _ _ LS I2 N3 T2 K) as En.
+      pose proof (handler_agree _ _ _ _ _ _ _ _ _ _ LS I2 N3 T2 K) as En.
       cbn [app] in N2. unfold nok13 in N2. cbn [forallb] in N2. apply andb_prop in N2 as [_ N2'].
       rewrite Head. rewrite <- app_assoc. cbn [app].
       change (EAct (f_org f) (f_act f) (s_curw s1) (s_curh s1) :: l2' ++ l3 ++ rest)
@@ -506,12 +551,10 @@ Proof.
     { intros N2. pose proof (good_perform (react_n fuel) (react_n_good fuel) _ _ _ _ _ _ Pf I1 C1 N2)
         as (I2&_&_&_&_&C2&_). auto. }
     destruct r2 as [|[| |h cc cn tag]];
-      try (st_inv; intros N; apply nok10_app in N as [_ N]; apply nok10_app in N as [_ N];
-           destruct (G N) as [I2 C2]; split; [exact I2|apply C2; reflexivity]).
-    destruct (loop_switch (react_n fuel) h cc cn s2) as [[[s3 l3] r3]|] eqn:LS; [|discriminate].
-    st_inv. intros N. apply nok10_app in N as [_ N]. apply nok10_app in N as [_ N].
-    apply nok10_app in N as [N2 N3]. destruct (G N2) as [I2 _].
-    destruct (loop_switch_post _ _ _ _ _ _ _ _ LS I2 N3) as (I3&C3&_). auto.
+      try (st_inv; intros N; destruct (G eq_refl) as [I2 C2]; split; [exact I2|apply C2; reflexivity]).
+    destruct (handler (react_n fuel) fuel h cc cn s2) as [[[s3 l3] r3]|] eqn:LS; [|discriminate].
+    st_inv. intros N. destruct (G eq_refl) as [I2 _].
+    destruct (handler_post _ _ _ _ _ _ _ _ _ LS I2) as (I3&C3&_). auto.
 Qed.
 
 Lemma frames13 fuel nps ek fs : forall last s s' l r fr,
@@ -543,12 +586,9 @@ Proof.
 Qed.
 
 (* ---- all operations ------------------------------------------------------- *)
-Definition frames_ok (x : op * list entry) : bool :=
-  match fst x with OTop _ _ _ _ => true | OStart fs _ _ => forallb frame_origin_ok fs end.
-
 Lemma ops13_ok nps ops : forall last s,
   inv s -> (cur_ok s \/ first_is_top ops = true) ->
-  forallb frames_ok ops = true ->
+  forallb op_ok ops = true ->
   forallb (fun x => nok13 (snd x)) ops = true ->
   run_ops nps last ops s = true ->
   ops13 s ops = true.
@@ -558,11 +598,12 @@ Proof.
   intros H. apply andb_prop in H as [H1 H2].
   apply log_eqb_eq in H1. subst obs.
   cbn [forallb] in W, K. apply andb_prop in W as [W1 W2]. apply andb_prop in K as [N K2].
-  unfold frames_ok in W1. cbn [fst snd] in W1, N.
+  unfold op_ok in W1. cbn [fst snd] in W1, N.
   destruct o as [h cc cn rs|fs ek rs]; cbn [run_op] in R.
   - destruct (loop_switch _ h cc cn (set_reacts rs s)) as [[[s2 l2] r2]|] eqn:S; [|discriminate].
     injection R as <- <- <-. apply nok13_app in N as [N _].
     destruct (loop_switch_post _ _ _ _ _ _ _ _ S I (nok13_10 _ N)) as (I2&C2&_).
+    apply top_escape_sw in W1. specialize (C2 W1).
     assert (En : a_enter (a_react_n (Datatypes.S (length rs))) h cc cn None (set_reacts rs s)
                  = Some (s2, l2, r2)).
     { apply (enter_agree _ _ _ _ None _ _ _ _ S I N); [exact Logic.I|congruence]. }
@@ -604,16 +645,13 @@ Qed.
 Theorem accepts_holds13 (c : rcase) :
   wf_b c = true -> known13_b c = false -> accepts c = true -> holds13 c.
 Proof.
-  unfold wf_b, known13_b, any_entry, accepts, holds13, holds13_b. intros W K A.
+  unfold wf_b, known13_b, any_entry, accepts, holds13, holds13_b. intros W K5 A.
   apply andb_prop in W as [W _]. apply andb_prop in W as [W Wf]. apply andb_prop in W as [Wn Wt].
-  apply orb_false_elim in K as [K5 K10].
   apply (ops13_ok (c_nps c) (c_ops c) None init); auto.
   - apply inv_init.
-  - (* no K5 and no K10 entry anywhere *)
-    clear - K5 K10. induction (c_ops c) as [|[o l] ops IH]; cbn in *; auto.
-    apply orb_false_elim in K5 as [A5 B5]. apply orb_false_elim in K10 as [A10 B10].
-    rewrite (IH B5 B10), andb_true_r.
-    unfold nok13. clear - A5 A10. induction l as [|e l IHl]; cbn in *; auto.
-    apply orb_false_elim in A5 as [X5 Y5]. apply orb_false_elim in A10 as [X10 Y10].
-    rewrite X5, X10, (IHl Y5 Y10). reflexivity.
+  - (* no K5 entry anywhere *)
+    clear - K5. induction (c_ops c) as [|[o l] ops IH]; cbn in *; auto.
+    apply orb_false_elim in K5 as [A5 B5]. rewrite (IH B5), andb_true_r.
+    unfold nok13. clear - A5. induction l as [|e l IHl]; cbn in *; auto.
+    apply orb_false_elim in A5 as [X5 Y5]. rewrite X5, (IHl Y5). reflexivity.
 Qed.
